@@ -46,6 +46,9 @@ THEOREMS = ["ResultJson.roundtrip_safe", "ResultJson.numpy_scalars_roundtrip_as_
             "ResultJson.class_preserved", "ResultJson.write_fails_iff", "ResultJson.result_roundtrip",
             "ResultJson.string_distribution_split", "ResultJson.rebuild_eq", "ResultJson.rebuild_same_index",
             "ResultJson.rebuild_any_observable", "ResultJson.masked_region_not_preserved",
+            # second loader (csep.load_json / FileSystem.load), in-memory pair, non-finite values
+            "ResultJson.loaders_agree", "ResultJson.loaders_agree_on_written", "ResultJson.load_json_roundtrip",
+            "ResultJson.nonfinite_survive", "ResultJson.from_dict_to_dict",
             # Properties/C18_Tree.lean — JSON value tree with dictionaries
             "JsonTree.tree_roundtrip_safe", "JsonTree.safe_image_nodup", "JsonTree.decode_encode_fixed",
             "JsonTree.safe_image_fixed", "JsonTree.loaded_is_plain", "JsonTree.tree_roundtrip_stable",
@@ -83,7 +86,13 @@ TRUSTED = ["Lean 4.33 kernel", "axioms: propext, Classical.choice, Quot.sound at
            "for non-float coordinates, ragged magnitudes and non-list iterables (not generated)",
            "harness/c18.py, harness/c18_tree.py generators and comparison; driver parsing (Proto.lean, Drive/C18.lean, "
            "Drive/C18b.lean)"]
-RULE = ("results: 19 evaluation functions x variants {normal, zero_rate (-inf), empty_obs (nan/None/not-valid), single "
+RULE = ("every public saver / loader pair for results (write_json | FileSystem.save with and without backup) x "
+        "(load_evaluation_result | csep.load_json(Class) | FileSystem.load(Class) | Class.from_dict(json.load) | in-memory "
+        "Class.from_dict(to_dict())) and regions (write_json/load_json | FileSystem.save/load | from_dict(to_dict()) | through json "
+        "text); histories: a dictionary from an earlier to_dict() edited by the caller, then saved again; load A, load B, load A; "
+        "a path overwritten; region A rebuilt after region B of the same name; result / region unchanged by serialising; one "
+        "distribution of > 2^16 entries ending in inf, -inf, nan (either byte order) and one lattice of > 2^16 cells per run; "
+        "results: 19 evaluation functions x variants {normal, zero_rate (-inf), empty_obs (nan/None/not-valid), single "
         "(nan t-test), int_mags (numpy.int64 min_mw)} x random small grids, plus synthetic results of every class with "
         "random field values of all kinds (nested tuples, nan/inf, None, unicode, numpy scalars); regions: random "
         "unmasked lattices (holes, shuffled cell order, decimal and dyadic spacings, inferred dh) probed at cell corners, "
@@ -443,7 +452,7 @@ def time_limit(seconds):
 
 
 # ----------------------------------------------------------------------------- one result
-def check_result(run, drv, pend, res, case, produced_by_library, tmp):
+def _check_result(run, drv, pend, res, case, produced_by_library, tmp):
     """write with csep.write_json, load with csep.load_evaluation_result, oracle + queue model comparison"""
     import csep
     cls = type(res).__name__
@@ -519,6 +528,14 @@ def check_result(run, drv, pend, res, case, produced_by_library, tmp):
                     exp = py_norm(vals[f])
                 if not same(got, exp):
                     run.oracle_failure(dict(case, field=f), f"{cls}.{f}: wrote {vals[f]!r} ({kinds[f]}), loaded {got!r}")
+    # --- every other saver / loader pair, and histories (lessons 1-3)
+    if wrote and not lerr:
+        try:
+            extra_paths(run, drv, pend, res, case, cls, vals, kinds, judge, loaded, tmp, path)
+        except Exception as e:          # never a harness crash: the deviation is the finding
+            import traceback
+            tb = traceback.extract_tb(e.__traceback__)[-1]
+            run.mismatch(dict(case, op="extra_paths"), f"{type(e).__name__}: {e} (c18.py:{tb.lineno})"[:300], "saver / loader pairs behave")
     # --- model
     if wrote and not lerr:
         for f in FIELDS:
@@ -534,6 +551,152 @@ def check_result(run, drv, pend, res, case, produced_by_library, tmp):
         pend.append(("factory", case, drv.ask(f"c18_factory {hexs(cls)}"), "KeyError" if "KeyError" in lerr else lerr))
     else:
         run.mismatch(dict(case, op="write_json"), werr, "the model writes every result whose test_distribution is iterable")
+
+
+_HIST = {"prev": None, "n": 0, "region": None}
+
+
+def _fields_of(obj, td=True):
+    return {f: py_norm(getattr(obj, f), td=td) for f in FIELDS}
+
+
+def _judge_loaded(run, case, how, loaded, cls, vals, kinds):
+    """the property's predicate on ONE loaded object: same class, nine fields equal by value"""
+    if isinstance(loaded, str):
+        run.oracle_failure(dict(case, loader=how), f"{how} raised {loaded}")
+        return
+    if type(loaded).__name__ != cls:
+        run.oracle_failure(dict(case, loader=how), f"{how}: class {cls} loaded back as {type(loaded).__name__}")
+    for f in FIELDS:
+        try:
+            got = py_norm(getattr(loaded, f), td=True)
+        except Exception as e:
+            run.oracle_failure(dict(case, field=f, loader=how), f"{how}: loaded object has no usable field {f}: {type(e).__name__}")
+            continue
+        if f == "test_distribution":
+            if isinstance(vals[f], str):
+                continue
+            try:
+                exp = py_norm(td_list(vals[f]))
+            except TypeError:
+                continue
+        else:
+            exp = py_norm(vals[f])
+        if not same(got, exp):
+            run.oracle_failure(dict(case, field=f, loader=how), f"{how}: {cls}.{f}: wrote {vals[f]!r} ({kinds[f]}), loaded {got!r}")
+
+
+def _try(fn):
+    try:
+        return fn()
+    except Exception as e:
+        return f"{type(e).__name__}: {e}"[:160]
+
+
+def extra_paths(run, drv, pend, res, case, cls, vals, kinds, judge, loaded, tmp, path):
+    """every public saver / loader pair for a result, and histories around them.
+    savers : csep.write_json(res, f) | FileSystem(url=f).save(res.to_dict()) | …save(…, backup=True) over an existing file
+    loaders: csep.load_evaluation_result(f) | csep.load_json(Class, f) | FileSystem(url=f).load(Class) |
+             Class.from_dict(json.load(f)) | in memory Class.from_dict(res.to_dict())
+    histories: the caller edits a dictionary obtained from to_dict() earlier, then the result is saved again; load A, load B,
+    load A again; a path overwritten by another result; the result object itself must be unchanged by saving."""
+    import copy
+    import csep
+    from csep.core.repositories import FileSystem
+    klass = type(res)
+    nonfinite = any(_has_nonfinite(vals[f]) for f in FIELDS)
+    run.count("loaders:" + ("nonfinite" if nonfinite else "finite"))
+    ref = _fields_of(loaded)
+    # ---- loaders on the file write_json made
+    alt = {"csep.load_json": _try(lambda: csep.load_json(klass, path)),
+           "FileSystem.load": _try(lambda: FileSystem(url=path).load(klass)),
+           "from_dict(json.load)": _try(lambda: klass.from_dict(json.load(open(path))))}
+    for how, obj in alt.items():
+        if judge:
+            _judge_loaded(run, case, how, obj, cls, vals, kinds)
+        # all loaders read the same file: field by field the same values, whatever they are (model: loaders_agree)
+        if isinstance(obj, str):
+            run.mismatch(dict(case, op="loaders_agree", loader=how), obj, "the object load_evaluation_result builds")
+        else:
+            diff = [f for f in FIELDS if not same(py_norm(getattr(obj, f, None), td=True), ref[f])]
+            if diff or type(obj) is not type(loaded):
+                run.mismatch(dict(case, op="loaders_agree", loader=how),
+                             {f: repr(getattr(obj, f, None))[:80] for f in diff} or type(obj).__name__, "same as load_evaluation_result")
+    pend.append(("factory", dict(case, op="c18_loaders"), drv.ask(f"c18_loaders {hexs(cls)} {hexs(cls)}"),
+                 hexs(type(loaded).__name__) + ";" + (hexs(type(alt["csep.load_json"]).__name__) if not isinstance(alt["csep.load_json"], str) else "E")))
+    # ---- in memory: Class.from_dict(res.to_dict())
+    mem = _try(lambda: klass.from_dict(res.to_dict()))
+    if judge:
+        _judge_loaded(run, case, "from_dict(to_dict())", mem, cls, vals, kinds)
+    # ---- second saver (FileSystem.save of the dictionary, then again with backup=True over the existing file)
+    p2 = os.path.join(tmp, "r_fs.json")
+    for backup in (False, True):
+        w = _try(lambda: FileSystem(url=p2).save(res.to_dict(), backup=backup))
+        obj = w if isinstance(w, str) else _try(lambda: csep.load_evaluation_result(p2))
+        if judge:
+            _judge_loaded(run, case, f"FileSystem.save(backup={backup}) -> load_evaluation_result", obj, cls, vals, kinds)
+    for fn in os.listdir(tmp):
+        if fn.startswith("r_fs_backup_"):
+            os.unlink(os.path.join(tmp, fn))
+    # ---- history: the caller edits a dictionary obtained EARLIER, then the result is serialised again
+    before = {f: enc(vals[f], td=(f == "test_distribution")) for f in FIELDS}
+    d = _try(lambda: res.to_dict())
+    if isinstance(d, dict):
+        for k in list(d):
+            if k == "test_distribution" and isinstance(d[k], list):
+                d[k].append(777.0)               # in place: the list to_dict built for the caller
+                if d[k]:
+                    d[k][0] = "edited"
+            elif k != "type":
+                d[k] = "edited-by-caller"        # re-bound entries
+        d["type"] = "EvaluationResult" if cls != "EvaluationResult" else "CatalogNumberTestResult"
+        p3 = os.path.join(tmp, "r_hist.json")
+        w = _try(lambda: csep.write_json(res, p3))
+        obj = w if isinstance(w, str) else _try(lambda: csep.load_evaluation_result(p3))
+        if judge:
+            _judge_loaded(run, dict(case, history="edit-earlier-dict"), "write_json after the caller edited an earlier to_dict()", obj, cls,
+                          vals, kinds)
+        elif not isinstance(obj, str):
+            diff = [f for f in FIELDS if not same(py_norm(getattr(obj, f, None), td=True), ref[f])]
+            if diff or type(obj) is not type(loaded):
+                run.mismatch(dict(case, op="history:edit-earlier-dict"), diff or type(obj).__name__, "same file as before the edit")
+        run.count("history:edit-earlier-dict")
+    # the result object itself is not changed by to_dict / saving / loading
+    after = {f: _try(lambda f=f: enc(getattr(res, f), td=(f == "test_distribution"))) for f in FIELDS}
+    if after != before:
+        ch = [f for f in FIELDS if after[f] != before[f]]
+        run.oracle_failure(dict(case, history="save-changes-result"), f"fields {ch} of the result object changed while it was written / read")
+    # ---- history: load A, load B, load A again; then A's path is overwritten by B
+    _HIST["n"] += 1
+    pa = os.path.join(tmp, f"h{_HIST['n'] % 2}.json")
+    prev = _HIST["prev"]
+    w = _try(lambda: csep.write_json(res, pa))
+    if not isinstance(w, str):
+        cur = _try(lambda: csep.load_json(klass, pa) if _HIST["n"] % 3 == 0 else csep.load_evaluation_result(pa))
+        if prev is not None and os.path.exists(prev[0]) and prev[0] != pa:
+            again = _try(lambda: csep.load_json(prev[2], prev[0]) if _HIST["n"] % 2 else csep.load_evaluation_result(prev[0]))
+            if isinstance(again, str) or [f for f in FIELDS if not same(py_norm(getattr(again, f, None), td=True), prev[1][f])]:
+                run.oracle_failure(dict(case, history="load-A-load-B-load-A"),
+                                   "a result file loaded again after another file was written and loaded gives other values")
+            run.count("history:load-A-B-A")
+            # overwrite A's path with the current result: the loaders must see the new content
+            w2 = _try(lambda: csep.write_json(res, prev[0]))
+            over = w2 if isinstance(w2, str) else _try(lambda: csep.load_evaluation_result(prev[0]))
+            if not isinstance(cur, str) and (isinstance(over, str) or
+                                             [f for f in FIELDS if not same(py_norm(getattr(over, f, None), td=True), _fields_of(cur)[f])]):
+                run.oracle_failure(dict(case, history="overwrite-path"), "a path overwritten by another result is loaded with stale / other values")
+        if not isinstance(cur, str):
+            _HIST["prev"] = (pa, _fields_of(cur), klass)
+
+
+def _has_nonfinite(v):
+    if isinstance(v, (list, tuple)):
+        return any(_has_nonfinite(e) for e in v)
+    if isinstance(v, numpy.ndarray):
+        return v.dtype.kind == "f" and bool(numpy.any(~numpy.isfinite(v)))
+    if isinstance(v, (float, numpy.floating)):
+        return not math.isfinite(float(v))
+    return False
 
 
 def _first_unsafe(v):
@@ -612,8 +775,13 @@ def gen_td(rng, allow_unsafe):
         return numpy.array([rng.choice([rng.gauss(0, 1), math.nan, -math.inf, 0.0]) for _ in range(rng.choice([0, 1, 5, 40]))])
     if k < 0.4:
         return numpy.array([rng.randrange(0, 30) for _ in range(rng.choice([1, 4, 20]))])      # int64 array -> ints
-    if k < 0.45:
+    if k < 0.43:
         return numpy.array([[1.0, 2.0], [3.0, math.nan]])
+    if k < 0.45:
+        # non-native byte order, and a distribution longer than 2^16 (not a multiple of 2^16) with non-finite entries
+        return rng.choice([numpy.array([1.5, -math.inf, math.nan, 2.0 ** 60], dtype=">f8"), numpy.array([3, -7, 2 ** 40], dtype=">i8"),
+                           numpy.concatenate([numpy.arange(65536 + 17, dtype=float), [math.inf, -math.inf, math.nan]]),
+                           numpy.array([7, 70000, 2 ** 31], dtype=">u4")])
     if k < 0.5:
         return rng.choice(["normal", "", "ab"])
     if k < 0.55 and allow_unsafe:
@@ -656,6 +824,14 @@ def dec(tokens):
             return xs if h == "l" else (tuple(xs) if h == "t" else numpy.array(xs))
         raise ValueError(t)
     return one()
+
+
+def make_big(case):
+    import csep.models as M
+    td = numpy.concatenate([numpy.arange(case["n"], dtype=float), [math.inf, -math.inf, math.nan]]).astype(case["order"] + "f8")
+    return getattr(M, case["cls"])(test_distribution=td, name="big", observed_statistic=numpy.float64(-math.inf),
+                                    quantile=(0.25, math.nan), status="normal", obs_catalog_repr="", sim_name="f", obs_name="c",
+                                    min_mw=4.95)
 
 
 def make_synthetic(cls, fields):
@@ -714,13 +890,15 @@ def locate(region, p):
         return None
 
 
-def check_region(run, drv, pend, origins, dh, mask, probes, dyadic, infer_dh, tmp):
+def _check_region(run, drv, pend, origins, dh, mask, probes, dyadic, infer_dh, tmp, big=False):
     import csep
     from csep.core import regions
     from csep.core.regions import CartesianGrid2D
     oarr = numpy.array(origins, dtype=float)
     case = dict(mode="region", origins=[[float(a).hex(), float(b).hex()] for a, b in origins], dh=float(dh).hex(),
                 mask=mask, probes=[[float(a).hex(), float(b).hex()] for a, b in probes], dyadic=dyadic, infer_dh=infer_dh)
+    if big:     # the lattice is regenerated from its parameters on replay
+        case = dict(mode="region", big=big, dh=float(dh).hex(), mask=None, probes=case["probes"], dyadic=False, infer_dh=False)
     try:
         if mask is None:
             r = CartesianGrid2D.from_origins(oarr, dh=None if infer_dh else dh, name="lattice")
@@ -746,7 +924,7 @@ def check_region(run, drv, pend, origins, dh, mask, probes, dyadic, infer_dh, tm
     on_edge = True
     run.case(case if len(origins) <= 6 else dict(mode="region", ncells=len(origins), dh=float(dh).hex(), masked=mask is not None,
                                                   dyadic=dyadic, nprobes=len(probes)),
-             ("region", tuple(map(tuple, case["origins"][:8])), case["dh"], len(probes), mask is not None) if on_edge else None)
+             ("region", tuple(map(tuple, case.get("origins", [[str(big)]])[:8])), case["dh"], len(probes), mask is not None) if on_edge else None)
     run.count("region-masked" if mask is not None else "region-unmasked")
     run.extra["region_probes"] = run.extra.get("region_probes", 0) + len(probes)
     if mask is None:
@@ -756,6 +934,39 @@ def check_region(run, drv, pend, origins, dh, mask, probes, dyadic, infer_dh, tm
                                f"point {probes[j]!r}: original region index {a[j]}, rebuilt region index {b[j]}")
         if not (r == r2) or r2.to_dict() != r.to_dict():
             run.oracle_failure(case, "rebuilt region's dictionary differs from the original's")
+        # every other public saver / loader pair for a region, and histories around them
+        from csep.core.repositories import FileSystem
+        import copy
+        p2 = os.path.join(tmp, "region_fs.json")
+        alts = {"from_dict(to_dict())": lambda: CartesianGrid2D.from_dict(r.to_dict()),
+                "from_dict(json text of to_dict())": lambda: CartesianGrid2D.from_dict(json.loads(json.dumps(r.to_dict()))),
+                "FileSystem.save -> FileSystem.load": lambda: (FileSystem(url=p2).save(r.to_dict()), FileSystem(url=p2).load(CartesianGrid2D))[1],
+                "write_json -> from_dict(json.load)": lambda: CartesianGrid2D.from_dict(json.load(open(path)))}
+        for how, fn in alts.items():
+            def rebuilt_indices(fn=fn):
+                x = fn()
+                return [locate(x, q) for q in probes]
+            c = _try(rebuilt_indices)
+            if c != a:
+                j = 0 if isinstance(c, str) else [i for i in range(len(a)) if a[i] != c[i]][0]
+                run.oracle_failure(dict(case, probes=[case["probes"][j]], pair=how),
+                                   f"{how}: point {probes[j]!r}: original region index {a[j]}, rebuilt region gives {c if isinstance(c, str) else c[j]}")
+        # the original region still indexes as before (serialising does not change it)
+        a2 = _try(lambda: [locate(r, q) for q in probes])
+        if a2 != a:
+            run.oracle_failure(dict(case, history="serialise-changes-region"), "the region indexes differently after it was serialised")
+        # history: region A rebuilt again after region B (same name, possibly same dh and cell count) went through the loaders
+        prev = _HIST.get("region")
+        if prev is not None:
+            def again():
+                x = CartesianGrid2D.from_dict(copy.deepcopy(prev[0]))
+                return [locate(x, q) for q in prev[1]]
+            c = _try(again)
+            if c != prev[2]:
+                run.oracle_failure(dict(prev[3], history="rebuild-A-after-B"),
+                                   "a region dictionary rebuilt again after another region was serialised / rebuilt indexes differently")
+            run.count("history:region-A-B-A")
+        _HIST["region"] = (copy.deepcopy(r.to_dict()), list(probes), list(a), case)
     if dyadic:
         ostr = ";".join(f"{frac(x)},{frac(y)}" for x, y in origins)
         pstr = ";".join(f"{frac(x)},{frac(y)}" for x, y in probes)
@@ -796,6 +1007,32 @@ def flush(run, drv, pend):
                 run.mismatch(dict(case, op="c18_region"), sh(a) + ";" + sh(b), o)
 
 
+def _guarded(run, case, what, fn, *a, **kw):
+    """a deviation of the implementation that trips the check routine itself (unexpected type / shape / exception) is a
+    reported difference with the case as replay, never a harness crash (RuntimeError = the harness's own trusted-base
+    assertions, kept as crashes)"""
+    try:
+        return fn(*a, **kw)
+    except RuntimeError:
+        raise
+    except Exception as e:
+        import traceback
+        tb = traceback.extract_tb(e.__traceback__)[-1]
+        run.mismatch(dict(case, op=what), f"{type(e).__name__}: {e} ({os.path.basename(tb.filename)}:{tb.lineno})"[:300],
+                     f"{what}: outputs of the expected shape and type")
+
+
+def check_result(run, drv, pend, res, case, produced_by_library, tmp):
+    return _guarded(run, case, "check_result", _check_result, run, drv, pend, res, case, produced_by_library, tmp)
+
+
+def check_region(run, drv, pend, origins, dh, mask, probes, dyadic, infer_dh, tmp, big=False):
+    case = dict(mode="region", big=big, probes=[[float(a).hex(), float(b).hex()] for a, b in probes], dh=float(dh).hex()) if big else \
+        dict(mode="region", origins=[[float(a).hex(), float(b).hex()] for a, b in origins], dh=float(dh).hex(), mask=mask,
+             probes=[[float(a).hex(), float(b).hex()] for a, b in probes], dyadic=dyadic, infer_dh=infer_dh)
+    return _guarded(run, case, "check_region", _check_region, run, drv, pend, origins, dh, mask, probes, dyadic, infer_dh, tmp, big=big)
+
+
 # ----------------------------------------------------------------------------- run
 def run_eval(run, drv, pend, sub_seed, variant, tmp, only=None):
     rng = random.Random(sub_seed)
@@ -824,6 +1061,7 @@ def run_eval(run, drv, pend, sub_seed, variant, tmp, only=None):
 def run(run, rng, tier):
     drv, pend = Driver(), []
     thorough = tier == "thorough"
+    _HIST.update(prev=None, n=0, region=None)
     with tempfile.TemporaryDirectory(prefix="c18_") as tmp:
         cdir = os.path.join(os.path.dirname(os.path.dirname(os.path.abspath(__file__))), "corpus", "C18")
         if os.path.isdir(cdir):
@@ -849,6 +1087,13 @@ def run(run, rng, tier):
                 except Exception:
                     continue
                 check_result(run, drv, pend, res, case, False, tmp)
+        # SIZES / VALUE CLASSES, deterministic: a distribution of more than 2^16 entries (not a multiple of 2^16) ending in
+        # inf, -inf, nan, a -inf statistic, non-native byte order — one class per quick run, every class in thorough
+        for cls in (sorted(classes) if thorough else [rng.choice(sorted(classes))]):
+            n = 65536 + rng.randrange(1, 400)
+            case = dict(mode="synthetic-big", cls=cls, n=n, order=rng.choice(["<", ">"]))
+            check_result(run, drv, pend, make_big(case), case, False, tmp)
+            run.count("synthetic-big(>2^16 distribution)")
         # unknown class name stored in the file: KeyError in the library, `none` in the model
         import csep
         p = os.path.join(tmp, "unk.json")
@@ -878,6 +1123,20 @@ def run(run, rng, tier):
                 check_region(run, drv, pend, origins, dh, mask, probes, True, False, tmp)
         # 4. value trees with dictionaries, whole files, EvaluationConfiguration / Event / FileSystem, region dictionaries
         c18_tree.run_all(run, drv, pend, rng, thorough, tmp)
+        # 3b. SIZES: a lattice of more than 2^16 cells (257 x 256), probes in cells whose index exceeds 65535
+        for _ in range(2 if thorough else 1):
+            dh = rng.choice([0.1, 0.25])
+            lon0, lat0 = rng.choice([-30.0, 100.0]), rng.choice([-20.0, 10.0])
+            nx, ny = 257 + rng.randrange(3), 256
+            origins = [(lon0 + dh * i, lat0 + dh * j) for i in range(nx) for j in range(ny)]
+            last = [origins[k] for k in (rng.sample(range(65536, nx * ny), 10) + [nx * ny - 1, 65536, 65535, 0])]
+            probes = [(x + dh / 2, y + dh / 2) for x, y in last] + [(x, y) for x, y in last[:4]] + [(lon0 - dh, lat0)]
+            try:
+                check_region(run, drv, pend, origins, dh, None, probes, False, False, tmp,
+                             big=dict(lon0=lon0, lat0=lat0, dh=dh, nx=nx, ny=ny))
+            except Exception as e:
+                run.mismatch(dict(mode="region", big=True, ncells=nx * ny), f"{type(e).__name__}: {e}"[:200], "a region of > 2^16 cells round-trips")
+            run.count("region-big(>2^16 cells)")
         flush(run, drv, pend)
 
 
@@ -899,10 +1158,18 @@ def _replay_one(run, drv, pend, case, tmp):
         c18_tree.run_case(run, drv, pend, case["section"], case["sub_seed"], tmp)
     elif mode == "eval":
         run_eval(run, drv, pend, case["sub_seed"], case["variant"], tmp, only=case["label"])
+    elif mode == "synthetic-big":
+        check_result(run, drv, pend, make_big(case), dict(mode="synthetic-big", cls=case["cls"], n=case["n"], order=case["order"]),
+                     False, tmp)
     elif mode == "synthetic":
         res = make_synthetic(case["cls"], case["fields"])
         check_result(run, drv, pend, res, dict(mode="synthetic", cls=case["cls"], fields=case["fields"]),
                      False, tmp)
+    elif mode == "region" and case.get("big"):
+        g = case["big"]
+        origins = [(g["lon0"] + g["dh"] * i, g["lat0"] + g["dh"] * j) for i in range(g["nx"]) for j in range(g["ny"])]
+        probes = [(float.fromhex(a), float.fromhex(b)) for a, b in case["probes"]]
+        check_region(run, drv, pend, origins, g["dh"], None, probes, False, False, tmp, big=g)
     elif mode == "region":
         origins = [(float.fromhex(a), float.fromhex(b)) for a, b in case["origins"]]
         probes = [(float.fromhex(a), float.fromhex(b)) for a, b in case["probes"]]
